@@ -1,11 +1,47 @@
 import Driver.Ops
 import Driver.VMDrv
+import Driver.Json
+import Driver.Sym
+import Driver.Conv
+import Driver.CompileDrv
+import Driver.SemDrv
+import Driver.Pos
+import Driver.V1
+import Driver.Sched
+import Driver.Invoke
+import Driver.ModStoreDrv
+import Driver.Builtins
+import Driver.Enc
+import Driver.EvalDrv
 open Driver
 
+/-- a trailing field starting with '#' carries human-readable context and is ignored -/
+def stripComment (fs : List String) : List String :=
+  match fs.reverse with
+  | c :: rest => if c.startsWith "#" && rest.length > 1 then rest.reverse else fs
+  | [] => fs
+
 def dispatch (line : String) : String :=
-  match line.splitOn "\t" with
+  match stripComment (line.splitOn "\t") with
+  | "noop" :: _ => "ok"
   | "ops" :: args => handleOps args
+  | "unop" :: args => handleUnop args
   | "vm" :: args => handleVM args
+  | "json" :: args => handleJson args
+  | "symops" :: args => handleSymops args
+  | "disable" :: args => handleDisable args
+  | "conv" :: args => handleConv args
+  | "compile" :: args => handleCompile args
+  | "sem" :: args => handleSem args
+  | "pos" :: args => handlePos args
+  | "v1" :: args => handleV1 args
+  | "sched" :: args => handleSched args
+  | "inv" :: args => handleInv args
+  | "ms" :: args => handleMs args
+  | "bi" :: args => handleBuiltins args
+  | "enc" :: args => EncDrv.handleEnc args
+  | "dec" :: args => EncDrv.handleDec args
+  | "eval" :: args => handleEval args
   | _ => "bad-op"
 
 partial def loop (h : IO.FS.Stream) (out : IO.FS.Stream) : IO Unit := do
